@@ -409,26 +409,32 @@ func runC14(c *core.Ctx) {
 		}
 		c.Check(ok, "R2", "CorDef.StartWithVal", p.Pos(sv.Pos()), "receive(nil, in) precedes Start()", "the initial value is not enqueued (as receive(nil, in)) before the coroutine is started: a caller that sees IsStarted can get its request in front of it, shifting every later pairing")
 	}
-	if dn := p.Method(p.Fpgo, "CorDef", "DoNotation"); dn == nil || len(dn.AnonFuncs) != 1 {
+	// the signalling closure: the one closure of the method that calls Done()
+	callsDone := func(ins ssa.Instruction) bool {
+		call, isC := ins.(*ssa.Call)
+		return isC && core.StdCallee(&call.Call) == "sync.(WaitGroup).Done"
+	}
+	if dn := p.Method(p.Fpgo, "CorDef", "DoNotation"); dn == nil || core.ClosureContaining(dn, callsDone) == nil {
 		c.Unknown("R2", "CorDef.DoNotation", "-", "method or closure not found")
 	} else {
 		c.Analysed(core.FuncName(dn))
-		ok, detail := c14waitShape(p, dn, dn.AnonFuncs[0], func(ins ssa.Instruction) bool {
+		dcl := core.ClosureContaining(dn, callsDone)
+		ok, detail := c14waitShape(p, dn, dcl, func(ins ssa.Instruction) bool {
 			// result = effect(cor)
 			st, isS := ins.(*ssa.Store)
 			if !isS {
 				return false
 			}
 			call, isC := core.Resolve(st.Val).(*ssa.Call)
-			return isC && core.Callee(&call.Call) == nil && capturedBinding(dn, dn.AnonFuncs[0], core.Path(call.Call.Value)) == ssa.Value(dn.Params[1])
+			return isC && core.Callee(&call.Call) == nil && capturedBinding(dn, dcl, core.Path(call.Call.Value)) == ssa.Value(dn.Params[1])
 		}, "fpgo.CorDef.Start")
 		c.Check(ok, "R2", "CorDef.DoNotation", p.Pos(dn.Pos()), detail, detail)
 	}
-	if yio := p.Method(p.Fpgo, "CorDef", "YieldFromIO"); yio == nil || len(yio.AnonFuncs) != 1 {
+	if yio := p.Method(p.Fpgo, "CorDef", "YieldFromIO"); yio == nil || core.ClosureContaining(yio, callsDone) == nil {
 		c.Unknown("R2", "CorDef.YieldFromIO", "-", "method or closure not found")
 	} else {
 		c.Analysed(core.FuncName(yio))
-		cl := yio.AnonFuncs[0]
+		cl := core.ClosureContaining(yio, callsDone)
 		ok, detail := c14waitShape(p, yio, cl, func(ins ssa.Instruction) bool {
 			st, isS := ins.(*ssa.Store)
 			return isS && st.Val == ssa.Value(cl.Params[0])
